@@ -1,6 +1,12 @@
 """Shared part of the C13 and C14 checks (DESIGN.md §5, C13/C14): one run of the
 harness family "mutex" against the real lock manager per (tree, seed, tier),
-replayed on the Coq model; cached under build/ so that the two checks share it."""
+replayed on the Coq model; cached under build/ so that the two checks share it.
+
+Timed replay (audit task B3), part of the same bundle: harness family "mutextimed"
+(harness/mutex_timed_test.go) runs timed scripts against the real manager with the
+tunables set and the real ticker purging; evaluate_timed runs the same timed
+schedules with MutexTimed.trun (Model/MutexTimedReplay.v) and compares table,
+holders and waiters at every quiescent point, inside and outside the proviso."""
 import glob
 import json
 import os
@@ -27,6 +33,14 @@ ERRS = {1: "a step the replay needs is not enabled in the model", 2: "run leaves
         7: "model not quiescent where the real system was", 8: "observation breaks the quiescent invariant",
         9: "scripts not finished at the end"}
 
+# timed replay (audit task B3): harness family "mutextimed" against Model/MutexTimedReplay.v
+TERRS = dict(ERRS)
+TERRS[10] = "lastAccess table and lock table have different domains in the model"
+# script kinds that stay within the proviso by construction (every hold at most `stale` long, no spurious
+# Unlock of a held key): oracle findings on these are violations of the property
+T_ADM_KINDS = ("adm", "waiter", "boundary", "idle", "spurrefresh")
+T_SCENARIOS = ("waiter", "boundary", "longhold", "idle", "spurrefresh", "strandedwaiter")
+
 ASSUMPTIONS = [
     "granularity: every transition of Model/Mutex.v contains exactly one synchronising action (a channel rendezvous or a critical section of itemsMutex) and the counters are touched by the manager goroutine only, so every Go execution is a linearisation of model transitions (argued, not proved)",
     "Go scheduler fairness: a runnable goroutine eventually runs (needed to turn 'some admissible step is enabled' + the decreasing measure into 'every Lock returns')",
@@ -39,6 +53,7 @@ TRUSTED = [
     "translator/mutex_time.go: uses of lastAccess, of the clock and of getItem in the package, compared in Coq with the forms Model/MutexTimed.v was written against (C13T_time_uses_pinned)",
     "translator/mutex_tbl.go: normalised statement texts of newMutexes/getItem/Lock/Unlock compared in Coq with the forms Model/Mutex.v was written against (C13_source_pinned)",
     "harness/mutex_test.go: worker goroutines, owner-word and quiescence oracles, canonical command order handed to the model",
+    "harness/mutex_timed_test.go + Model/MutexTimedReplay.v: instants of commands and of the real ticker's purges as read from the synctest clock; the schedule builder (ticks of a sleep before the commands that follow it, internal steps at the instant of their command, grant to the goroutine observed to hold)",
     "checks/mutex_common.py: classification of harness findings",
 ]
 
@@ -56,9 +71,9 @@ def cfg_args(c, extra=""):
     return ("max=%d ticker=%d mode=%s %s" % (c["max"], c["ticker"], c["mode"], extra)).strip()
 
 
-def run_family(binary, args, seed, n, tag, timeout=900):
-    p = os.path.join(vlib.BUILD, "mutex-%d-%s.jsonl" % (os.getpid(), tag))
-    rc, out = vlib.run_harness(binary, "mutex", p, seed=seed, n=n, args=args, timeout=timeout)
+def run_family(binary, args, seed, n, tag, timeout=900, family="mutex"):
+    p = os.path.join(vlib.BUILD, "%s-%d-%s.jsonl" % (family, os.getpid(), tag))
+    rc, out = vlib.run_harness(binary, family, p, seed=seed, n=n, args=args, timeout=timeout)
     recs = []
     if os.path.exists(p):
         try:
@@ -137,11 +152,202 @@ def slim(r, code=None):
     return d
 
 
+# ------------------------------------------------------------ timed replay (B3)
+
+def evaluate_timed(recs, tag, shard=100):
+    """Run every record's timed schedule with MutexTimed.trun (Model/MutexTimedReplay.v:
+    mutextimed_codes). Returns per record [code, within proviso, exclusion lost, events]."""
+    jobs = []
+    for i in range(0, len(recs), shard):
+        text = "From Sessions Require Import Model.Base Model.Mutex Model.MutexTimed Model.MutexTimedReplay.\n"
+        text += "Definition cases : list tcase := [\n" + ";\n".join(r["coq"] for r in recs[i:i + shard]) + "].\n"
+        text += "Definition M := Eval vm_compute in mutextimed_codes cases.\nPrint M.\n"
+        jobs.append(("mutextimed_%s_%d_%d" % (tag, os.getpid(), i), text))
+    res = []
+    for k, (rc, out) in enumerate(vlib.coq_run_many(jobs)):
+        m = vlib.parse_printed_list(out, "M") if rc == 0 else None
+        if m is None or len(m) != 4 * len(recs[k * shard:(k + 1) * shard]):
+            raise vlib.Machinery("timed model evaluation failed on shard %d: %s" % (k, out[-2000:]))
+        res += [m[j:j + 4] for j in range(0, len(m), 4)]
+    return res
+
+
+def timed_stats(recs, results):
+    """Measured on the records. Ages are the check's own bookkeeping (instant of the last
+    Lock/Unlock command on the key, forgotten when the entry disappears); they label the
+    evidence and judge nothing."""
+    st = {"scripts": len(recs), "quiescent_points": 0, "model_events": 0, "by_kind": {}, "by_tunables": {},
+          "commands": {}, "ticker_purges": 0, "explicit_purges": 0,
+          "within_proviso_by_model": 0, "outside_proviso_by_model": 0,
+          "exclusion_lost_in_model": 0, "two_holders_observed_on_real_code": 0, "exclusion_lost_disagreements": 0,
+          "purge_decisions": 0, "decisions_age_below_stale": 0, "decisions_age_exactly_stale_entry_kept": 0,
+          "decisions_age_exactly_stale_entry_dropped": 0, "decisions_age_exactly_stale_followed_by_a_later_purge_before_the_observation": 0,
+          "decisions_age_stale_plus_1_entry_dropped": 0,
+          "entries_dropped": 0, "entries_dropped_idle": 0, "entries_dropped_while_held": 0,
+          "entries_dropped_with_waiters_queued": 0, "holds_of_exactly_stale": 0, "holds_longer_than_stale": 0,
+          "hand_overs": 0, "waiters_served_after_queueing_longer_than_stale": 0, "longest_queueing": 0,
+          "waiters_never_served": 0, "distinct_scripts": 0}
+    seen = set()
+    for r, res in zip(recs, results):
+        code, adm, lost, nev = res
+        st["by_kind"][r["kind"]] = st["by_kind"].get(r["kind"], 0) + 1
+        tk = "stale=%d freq=%d" % (r["stale"], r["freq"])
+        st["by_tunables"][tk] = st["by_tunables"].get(tk, 0) + 1
+        st["model_events"] += nev
+        st["within_proviso_by_model" if adm else "outside_proviso_by_model"] += 1
+        st["exclusion_lost_in_model"] += lost
+        two = 0
+        stale = r["stale"]
+        la, table, holders, waiters, hold_from = {}, {}, {}, {}, {}
+        nontrivial = False
+        for p in r["points"]:
+            st["quiescent_points"] += 1
+            st["ticker_purges"] += len(p["ticks"])
+            now_t = {k: n for k, n in p["table"]}
+            purge_at = list(p["ticks"])
+            for c in p["cmds"]:
+                st["commands"][c["kind"]] = st["commands"].get(c["kind"], 0) + 1
+                if c["kind"] == "purge":
+                    st["explicit_purges"] += 1
+                    purge_at.append(p["at"])
+                else:
+                    la[c["k"]] = p["at"]
+            gone = [k for k in table if k not in now_t]
+            over = set()   # entries already older than the timeout at an earlier purge of this point
+            for idx, t in enumerate(purge_at):
+                for k in list(table):
+                    if k not in la:
+                        continue
+                    age = t - la[k]
+                    st["purge_decisions"] += 1
+                    if age < stale:
+                        st["decisions_age_below_stale"] += 1
+                    elif age == stale:
+                        nontrivial = True
+                        if k not in gone:
+                            st["decisions_age_exactly_stale_entry_kept"] += 1
+                        elif idx == len(purge_at) - 1:
+                            st["decisions_age_exactly_stale_entry_dropped"] += 1
+                        else:
+                            st["decisions_age_exactly_stale_followed_by_a_later_purge_before_the_observation"] += 1
+                    elif k not in over:
+                        over.add(k)
+                        if age == stale + 1 and k in gone:
+                            st["decisions_age_stale_plus_1_entry_dropped"] += 1
+            for k in gone:
+                nontrivial = True
+                st["entries_dropped"] += 1
+                if table[k] == 0:
+                    st["entries_dropped_idle"] += 1
+                if any(hk == k for hk in holders.values()):
+                    st["entries_dropped_while_held"] += 1
+                if any(wk == k for wk, _ in waiters.values()):
+                    st["entries_dropped_with_waiters_queued"] += 1
+                la.pop(k, None)
+            new_h = {g: k for g, k in p["holders"]}
+            for g, k in new_h.items():
+                if g in waiters and g not in holders:
+                    st["hand_overs"] += 1
+                    q = p["at"] - waiters[g][1]
+                    st["longest_queueing"] = max(st["longest_queueing"], q)
+                    if q > stale:
+                        st["waiters_served_after_queueing_longer_than_stale"] += 1
+            per = {}
+            for g, k in p["holders"]:
+                per[k] = per.get(k, 0) + 1
+            two = two or int(any(v > 1 for v in per.values()))
+            # holds ending at this point
+            for g, k in holders.items():
+                if g not in new_h:
+                    d = p["at"] - hold_from.get(g, p["at"])
+                    if d == stale:
+                        st["holds_of_exactly_stale"] += 1
+                    elif d > stale:
+                        st["holds_longer_than_stale"] += 1
+            for g in new_h:
+                if g not in holders:
+                    hold_from[g] = p["at"]
+            new_w = {}
+            for g, k in p["waiters"]:
+                new_w[g] = waiters[g] if g in waiters else (k, p["at"])
+            table, holders, waiters = now_t, new_h, new_w
+        st["waiters_never_served"] += len(waiters)
+        st["two_holders_observed_on_real_code"] += two
+        if code == 0 and two != lost:
+            st["exclusion_lost_disagreements"] += 1
+        if nontrivial:
+            seen.add(json.dumps([r["stale"], r["freq"], [[p["sleep"], p["cmds"]] for p in r["points"]]], sort_keys=True))
+    st["distinct_scripts"] = len(seen)
+    return st
+
+
+def tslim(r, res=None):
+    d = {k: r[k] for k in ("id", "kind", "G", "K", "stale", "freq", "max", "viol")}
+    d["points"] = [{k: p[k] for k in ("at", "sleep", "ticks", "cmds", "table", "holders", "waiters")} for p in r["points"]]
+    d["coq"] = r["coq"]
+    if r["kind"] not in T_ADM_KINDS:
+        d["viol_note"] = "script outside the proviso of C13/C14 by construction: the findings in `viol` are the expected loss of exclusion / stranded waiters, compared with the model, not reported"
+    if res is not None:
+        code = res[0]
+        d["model_code"] = code
+        d["model_says_within_proviso"] = bool(res[1])
+        d["model_says_exclusion_lost"] = bool(res[2])
+        if code:
+            i = code // 16 - 1
+            d["model_disagreement"] = {"point": i, "at": r["points"][i]["at"] if i < len(r["points"]) else None, "what": TERRS.get(code % 16, "?")}
+    return d
+
+
+def timed_bundle(chk, binary):
+    """The timed replay family, run and evaluated; part of the shared bundle."""
+    thorough = chk.tier == "thorough"
+    t0 = time.time()
+    ok, out, gen_ok = vlib.coq_build(["Model/MutexTimedReplay"])
+    if not ok:
+        return {"built": False, "log": out[-2500:], "stats": None, "codes_nonzero": 0, "crashes": [], "violating": [],
+                "mismatching": [], "n_violating": 0, "samples": [], "adm_kind_outside_proviso": [], "s": round(time.time() - t0, 2)}
+    runs, n = (8, 1500) if thorough else (4, 150)
+    from concurrent.futures import ThreadPoolExecutor
+
+    def one(i):
+        return run_family(binary, "", chk.seed * 1000 + 9000 + i, n, "t%d" % i, family="mutextimed")
+    with ThreadPoolExecutor(8) as ex:
+        results = list(ex.map(one, range(runs)))
+    recs, crashes = [], []
+    for i, (rc, out, rs) in enumerate(results):
+        recs += rs
+        if rc != 0:
+            crashes.append({"run": i, "rc": rc, "log": out[-3000:], "records_before_crash": len(rs)})
+    res = evaluate_timed(recs, "b") if recs else []
+    pairs = list(zip(recs, res))
+    admv = [(r, c) for r, c in pairs if r["kind"] in T_ADM_KINDS and r["viol"]]
+    first_of = {}
+    for r, c in pairs:
+        first_of.setdefault(r["kind"], tslim(r, c))
+    return {
+        "built": True,
+        "stats": timed_stats(recs, res),
+        "codes_nonzero": sum(1 for c in res if c[0]),
+        "mismatch_kinds": {TERRS.get(e, "?"): sum(1 for c in res if c[0] and c[0] % 16 == e) for e in sorted({c[0] % 16 for c in res if c[0]})},
+        "mismatching": [tslim(r, c) for r, c in pairs if c[0]][:10],
+        "violating": [tslim(r, c) for r, c in admv][:20],
+        "n_violating": len(admv),
+        # generator self-test: a script meant to be within the proviso that the model puts outside it
+        "adm_kind_outside_proviso": [r["id"] for r, c in pairs if r["kind"] in T_ADM_KINDS and c[0] == 0 and not c[1]][:5],
+        "crashes": crashes,
+        "samples": [first_of[k] for k in ("waiter", "longhold") if k in first_of],
+        "s": round(time.time() - t0, 2),
+    }
+
+
+
 def bundle(chk, binary):
     """Run (or load) the shared harness/model bundle for this tree, seed, tier."""
     thorough = chk.tier == "thorough"
     src = [os.path.join(vlib.ROOT, "harness", "mutex_test.go"), os.path.join(vlib.ROOT, "harness", "core_test.go"),
-           os.path.join(vlib.COQ, "Model", "Mutex.v"), os.path.abspath(__file__)]
+           os.path.join(vlib.COQ, "Model", "Mutex.v"), os.path.abspath(__file__),
+           os.path.join(vlib.ROOT, "harness", "mutex_timed_test.go"), os.path.join(vlib.COQ, "Model", "MutexTimed.v"),
+           os.path.join(vlib.COQ, "Model", "MutexTimedReplay.v")]
     key = vlib.file_hash(src + vlib.repo_sources()) + "-%d-%s" % (chk.seed, chk.tier)
     path = os.path.join(vlib.BUILD, "mutex-bundle-%s.json" % key)
     with vlib.lock("mutex-bundle"):
@@ -188,7 +394,9 @@ def bundle(chk, binary):
                         if "DATA RACE" in out2 or rc2 != 0:
                             race["reports"].append({"run": i, "rc": rc2, "log": out2[-3000:]})
         codes = evaluate(recs, "b") if recs else []
+        timed = timed_bundle(chk, binary)
         b = {
+            "timed": timed,
             "stats": stats_of(recs),
             "codes_nonzero": sum(1 for c in codes if c),
             "violating": [slim(r, c) for r, c in zip(recs, codes) if r["viol"]][:20],
@@ -285,6 +493,33 @@ def run_property(chk, prop, want, other):
                               "findings": [v for r in b["inadm_demo"] for v in r["viol"]]},
         "race_detector": b["race"],
     })
+    t = b["timed"]
+    ts = t["stats"] or {}
+    chk.coverage["timed_replay"] = {
+        "what": "harness family mutextimed: the real lock manager in a synctest bubble with the tunables set (stale/freq in units of 1 s: see tunables_histogram), the real ticker purging, explicit sleeps between commands so that every event has a known virtual instant; "
+                "the same timed schedule is run with MutexTimed.trun (Model/MutexTimedReplay.v builds it as a list of timed events; which entries a purge drops is computed by the model from its clock and lastAccess, not taken from the observation) "
+                "and table (keys, lock counts), holders and waiters are compared at every quiescent point; schedules outside the proviso (holds longer than the timeout, spurious Unlocks of held keys) are compared like the others, including the loss of exclusion",
+        "built": t["built"], "evaluations": ts.get("scripts", 0), "distinct_nontrivial": ts.get("distinct_scripts", 0),
+        "rule": "one evaluation = one timed script; non-trivial = some purge dropped an entry or met an entry of age exactly mutexStaleMutexes; distinct by tunables and (sleep, command) sequence",
+        "quiescent_points_compared": ts.get("quiescent_points", 0), "model_events_run": ts.get("model_events", 0),
+        "kind_histogram": ts.get("by_kind", {}), "tunables_histogram": ts.get("by_tunables", {}), "input_kinds": ts.get("commands", {}),
+        "branch_counters": {k: v for k, v in ts.items() if isinstance(v, int) and k not in ("scripts", "quiescent_points", "model_events", "distinct_scripts")},
+        "model_impl_mismatches": t["codes_nonzero"], "mismatch_kinds": t.get("mismatch_kinds", {}),
+        "scripts_within_proviso_with_oracle_failures": t["n_violating"], "harness_crashes": len(t["crashes"]),
+        "samples": t["samples"], "seconds": t["s"],
+    }
+    if t["built"] and not t["crashes"] and not t["codes_nonzero"] and not t["n_violating"]:
+        # generator self-test: the situations the timed layer is about were exercised and classified as intended
+        tneed = ["decisions_age_exactly_stale_entry_kept", "decisions_age_stale_plus_1_entry_dropped", "entries_dropped_idle",
+                 "entries_dropped_while_held", "entries_dropped_with_waiters_queued", "holds_of_exactly_stale", "holds_longer_than_stale",
+                 "waiters_served_after_queueing_longer_than_stale", "exclusion_lost_in_model", "within_proviso_by_model", "outside_proviso_by_model"]
+        if not all(ts.get(k, 0) > 0 for k in tneed) or any(ts["by_kind"].get(k, 0) == 0 for k in T_SCENARIOS + ("adm", "free")):
+            raise vlib.Machinery("timed generator self-test: a branch counter is zero: %s" % json.dumps(ts))
+        if t["adm_kind_outside_proviso"]:
+            raise vlib.Machinery("timed generator: scripts meant to stay within the proviso are outside tadm in the model: %s" % t["adm_kind_outside_proviso"])
+        if ts["exclusion_lost_disagreements"]:
+            raise vlib.Machinery("timed replay: exclusion-lost flags of model and harness differ although every point agreed: %s" % json.dumps(ts))
+
     # generator self-test: the branches the properties depend on were exercised
     need = ["rounds_with_waiters", "hand_overs", "entries_purged_by_size", "entries_purged_stale", "burst_rounds"]
     cover_ok = all(st[k] > 0 for k in need) and st["commands"].get("spur", 0) > 0 and st["commands"].get("purge", 0) > 0
@@ -296,19 +531,38 @@ def run_property(chk, prop, want, other):
     chk.coverage["inadmissible_demo"]["two_holders_observed"] = demo_ok
 
     mine = [r for r in b["violating"] if matches(r, want)]
+    tmine = [r for r in t["violating"] if matches(r, want)]
     chk.oblige("oracles of %s hold on every quiescent point of %d scripts of the real code" % (prop, st["scripts"]), not mine and not b["crashes"])
     chk.oblige("model = implementation on %d scripts (%d rounds)" % (st["scripts"], st["rounds"]), b["codes_nonzero"] == 0 and not b["crashes"])
+    chk.oblige("oracles of %s hold on every quiescent point of the %d timed scripts that stay within the proviso (holds of at most, and of exactly, the timeout)"
+               % (prop, sum(ts.get("by_kind", {}).get(k, 0) for k in T_ADM_KINDS)), t["built"] and not tmine and not t["crashes"])
+    chk.oblige("timed model (MutexTimed.trun) = implementation on %d timed schedules (%d quiescent points; %d schedules outside the proviso, exclusion lost in %d, by both)"
+               % (ts.get("scripts", 0), ts.get("quiescent_points", 0), ts.get("outside_proviso_by_model", 0), ts.get("exclusion_lost_in_model", 0)),
+               t["built"] and t["codes_nonzero"] == 0 and not t["crashes"] and ts.get("scripts", 0) > 0)
     if b["race"] is not None:
         chk.oblige("race detector silent on the lock manager workload", bool(b["race"].get("built")) and not b["race"].get("reports"))
 
     replay_cmd = "cd /verif && ./check %s --replay <this file>" % prop
-    if mine:
+    treplay_cmd = replay_cmd + "   (re-executes the timed script: sleeps and commands at the recorded instants)"
+    if mine or tmine:
+        for r in tmine[:1 if mine else 3]:
+            chk.violation({"property": prop, "input": {"config": {"stale_units": r["stale"], "ticker_every_units": r["freq"], "unit": "1s", "G": r["G"], "K": r["K"]},
+                                                        "timed_commands": [{"at": p["at"], "after_sleeping": p["sleep"], "cmds": p["cmds"]} for p in r["points"]]},
+                           "findings": matches(r, want), "timed_record": r, "seed": chk.seed, "replay": treplay_cmd})
         for r in mine[:3]:
             chk.violation({"property": prop, "input": {"config": {"max": r["max"], "ticker": r["ticker"], "G": r["G"], "K": r["K"]},
                                                         "rounds": [rd["cmds"] for rd in r["rounds"]]},
                            "findings": matches(r, want), "record": r, "seed": chk.seed, "replay": replay_cmd})
         return finish(chk)
     broken = []
+    if not t["built"]:
+        broken.append("Model/MutexTimedReplay.v does not build: " + t.get("log", "")[-1500:])
+    if t["codes_nonzero"]:
+        broken.append("timed correspondence: MutexTimed.trun differs from the real lock manager at a quiescent point (%s)" % json.dumps(t.get("mismatch_kinds", {})))
+    if t["crashes"]:
+        broken.append("harness process crashed (timed family)")
+    if t["n_violating"]:
+        broken.append("oracle of the sibling property failed on the real code within the proviso (timed family)")
     if not ok:
         broken.append("theorems of Properties/%s.v or %s.v (or the pins over Gen/MutexTbl.v, Gen/MutexTime.v)" % (prop, tmod))
     if b["codes_nonzero"]:
@@ -327,8 +581,9 @@ def run_property(chk, prop, want, other):
                            "findings": matches(found, want), "record": found, "seed": chk.seed, "replay": replay_cmd})
         else:
             first = (b["mismatching"] or b["violating"] or [None])[0]
-            chk.violation({"property": prop, "no_longer_checks": broken, "first_differing_script": first,
-                           "crashes": b["crashes"][:2], "obligations": chk.obligations, "log": out[-3000:] if not ok else "",
+            tfirst = (t["mismatching"] or t["violating"] or [None])[0]
+            chk.violation({"property": prop, "no_longer_checks": broken, "first_differing_script": first, "timed_record": tfirst,
+                           "crashes": (b["crashes"] + t["crashes"])[:2], "obligations": chk.obligations, "log": out[-3000:] if not ok else "",
                            "race": b["race"], "seed": chk.seed, "replay": replay_cmd}, no_input=True)
     return finish(chk)
 
@@ -342,6 +597,8 @@ def replay(chk, path):
     replay the outcome on the model."""
     d = json.load(open(path))
     rec = d.get("record") or d.get("first_differing_script")
+    if not rec and d.get("timed_record"):
+        return replay_timed(chk, d["timed_record"])
     if not rec:
         print(json.dumps(d, indent=1))
         return 0
@@ -368,3 +625,37 @@ def replay(chk, path):
     c = codes[0]
     print("model replay:", "agrees" if c == 0 else ("round %d: %s" % (c // 16 - 1, ERRS.get(c % 16, "?")) if c else "not evaluated"))
     return 1 if (r["viol"] or c) else 0
+
+
+def replay_timed(chk, rec):
+    """Re-execute a timed script (family mutextimed) against the current tree and run the
+    same timed schedule on the model."""
+    binary, blog = vlib.build_harness()
+    if binary is None:
+        print(blog[-3000:])
+        return 1
+    sp = os.path.join(vlib.BUILD, "mutextimed-replay-%d.json" % os.getpid())
+    with open(sp, "w") as f:
+        json.dump(rec, f)
+    rc, out, recs = run_family(binary, "script=%s" % sp, chk.seed, 1, "replay", family="mutextimed")
+    os.remove(sp)
+    if not recs:
+        print("harness failed (rc=%d):\n%s" % (rc, out[-3000:]))
+        return 1
+    ok, cout, gen_ok = vlib.coq_build(["Model/MutexTimedReplay"])
+    res = evaluate_timed(recs, "replay") if ok else [None]
+    r = recs[0]
+    print("stale=%d freq=%d (units of 1 s), G=%d K=%d, kind %s" % (r["stale"], r["freq"], r["G"], r["K"], r["kind"]))
+    for i, p in enumerate(r["points"]):
+        print("point %d t=%d: ticker purges at %s, %s -> table=%s holders=%s waiters=%s%s"
+              % (i, p["at"], p["ticks"], json.dumps(p["cmds"]), p["table"], p["holders"], p["waiters"],
+                 "  !! " + "; ".join(p["viol"]) if p.get("viol") else ""))
+    within = r["kind"] in T_ADM_KINDS
+    print("findings on the real code (%s the proviso by construction):" % ("within" if within else "outside"), r["viol"])
+    c = res[0]
+    if c is None:
+        print("model: not evaluated (Model/MutexTimedReplay.v does not build)")
+        return 1
+    print("timed model:", "agrees at every point" if c[0] == 0 else "point %d: %s" % (c[0] // 16 - 1, TERRS.get(c[0] % 16, "?")),
+          "| within proviso (tadm): %s | exclusion lost: %s | events: %d" % (bool(c[1]), bool(c[2]), c[3]))
+    return 1 if ((within and r["viol"]) or c[0]) else 0
